@@ -1,6 +1,6 @@
 //@ target: crates/compiler/src/value/number.rs
 //@ module: verif_kani_c07
-//@ props: C07
+//@ props: C07 C09
 //! Sass number rules on the real number.rs, over ALL f64 bit patterns (loop-free
 //! harnesses: complete proofs). `epsilon()`/`inverse_epsilon()` are replaced by
 //! their exact constants (CBMC's `powi` model is imprecise, DESIGN E-K3).
@@ -99,7 +99,7 @@ fn c07_fuzzy_equals_reflexive() {
     kani::cover!(a == b);
 }
 
-//@ ob: id=C07/K/fuzzy_order_definition kind=K-contract fns=fuzzy_less_than,fuzzy_less_than_or_equals
+//@ ob: id=C07/K/fuzzy_order_definition kind=K-contract tier=thorough fns=fuzzy_less_than,fuzzy_less_than_or_equals
 //@ desc: fuzzy < is `<` minus fuzzy equality and fuzzy <= is `<` or fuzzy equality (so a<=b iff a<b or a~b), NaN is unordered
 #[kani::proof]
 #[kani::stub(epsilon, epsilon_const)]
